@@ -114,6 +114,8 @@ func (p *termParser) expr() (TVal, error) {
 	return v, nil
 }
 
+var reIsnilParam = regexp.MustCompile(`^param:\w+\)`)
+
 var reEndian = regexp.MustCompile(`^\(encoding/binary\.(big|little)Endian\)\.Uint(16|32|64)\(global:encoding/binary\.(Big|Little)Endian, `)
 
 func (p *termParser) primary() (TVal, error) {
@@ -323,6 +325,14 @@ func (p *termParser) primary() (TVal, error) {
 		return U(uint64(len(v.B))), nil
 	case strings.HasPrefix(r, "isnil("):
 		p.pos += 6
+		if m := reIsnilParam.FindString(p.rest()); m != "" {
+			// a nil check of an argument itself: the tables are evaluated for valid
+			// calls, whose arguments are not nil (unless the rule binds the term)
+			if _, bound := p.bind[m[:len(m)-1]]; !bound {
+				p.pos += len(m)
+				return Tv(false), nil
+			}
+		}
 		v, err := p.expr()
 		if err != nil {
 			return v, err
